@@ -128,6 +128,9 @@ fn wobs_impl(args: &[&str], full: bool) -> String {
         .map(|i| SignalRef::from_index(i).unwrap())
         .filter(|r| wave.hierarchy().get_signal_tpe(*r).is_some())
         .collect();
+    // one request holding the signal of every variable (a signal with several variables is requested several times)
+    let req: Vec<SignalRef> = wave.hierarchy().iter_vars().map(|v| v.signal_ref()).collect();
+    wave.load_signals(&req);
     wave.load_signals(&ids);
     let tt: Vec<u64> = wave.time_table().to_vec();
     let mut out = vec![format!("ts={} tt={}", ts, time_table_obs(&tt))];
